@@ -11,13 +11,21 @@ function runJob(job) {
     // evaluate a plain JS expression with data D in scope (reference semantics for C03)
     try {
       const D = rt.decodeValue(job.data)
-      const f = new Function('D', 'X', 'P', 'Y', '"use strict";return (' + job.expr + ')')
+      const f = new Function('D', 'X', 'P', 'Y', 'REFSPREAD', '"use strict";return (' + job.expr + ')')
       const X = (a) => (a == null ? Object.create(null) : a)
       const P = (a) => (typeof a === 'function' ? a : () => {})
       const Y = (a) => (a == null ? '' : String(a))
-      return { id: job.id, value: rt.encodeValue(f(D, X, P, Y)) }
+      // array spread is only specified for arrays without holes (anything else is out of the reference's domain)
+      const REFSPREAD = (a) => {
+        if (!Array.isArray(a)) throw new Error('$SKIP spread of a non-array')
+        for (let i = 0; i < a.length; i += 1) if (!(i in a)) throw new Error('$SKIP spread of a sparse array')
+        return a
+      }
+      return { id: job.id, value: rt.encodeValue(f(D, X, P, Y, REFSPREAD)) }
     } catch (e) {
-      return { id: job.id, error: String(e && e.message) }
+      const msg = String(e && e.message)
+      if (msg.startsWith('$SKIP')) return { id: job.id, skip: msg }
+      return { id: job.id, error: msg }
     }
   }
   if (job.op === 'run') {
